@@ -170,8 +170,15 @@ func Text(a any) string {
 func decimalText(a any) string {
 	switch t := a.(type) {
 	case float64:
+		// 0 and -0 are one number
+		if t == 0 {
+			return "0"
+		}
 		return strconv.FormatFloat(t, 'f', -1, 64)
 	case float32:
+		if t == 0 {
+			return "0"
+		}
 		// the text of the value it holds, the same text the float64 of
 		// that value has: float32(0.1) is 0.10000000149011612, not the
 		// float64 0.1, and two numbers with one text are one join key
